@@ -35,7 +35,7 @@ ReaderConsistent ==
   (mode = "edit" /\ verdict # <<>>) =>
      /\ verdict.acc \in BOOLEAN
      /\ verdict.acc =>
-          /\ Len(verdict.z) = verdict.n /\ \A i \in 1..(verdict.n - 1) : verdict.z[i] <= verdict.z[i + 1]
+          /\ (verdict.n <= MaxExpand => Len(verdict.z) = verdict.n /\ \A i \in 1..(verdict.n - 1) : verdict.z[i] <= verdict.z[i + 1])
           /\ \A e \in verdict.bonds : Cardinality(e) = 2 /\ e \subseteq 1..verdict.n
           /\ \A p \in verdict.mass \cup verdict.rad : p[1] \in 1..verdict.n /\ p[2] >= 1
      /\ (cur = Lex(Spell(Bases[b])) => /\ verdict.acc /\ verdict.n = NAtoms(Bases[b])
